@@ -217,15 +217,13 @@ func (in *Interp) installCoroutineLib() {
 			back := in.resume(co, coMsg{kind: msgValues, vals: args})
 			if back.kind == msgError {
 				in.feat("coroutine-error-through-wrap")
-				v := back.err.Val
-				switch v.(type) {
-				case string, *ErrStr:
-					// the reference implementation prepends position information
-					// to string errors crossing a wrap; the manual only says the
-					// error is propagated
-					v = &ErrStr{Any: true}
-				}
-				in.raise(v)
+				// The error goes on unchanged: the manual says wrap "propagates the
+				// error", and C11 that error(v) delivers v itself to the nearest
+				// enclosing protected call - coroutine.wrap is not one. (The
+				// reference implementation prepends the caller's position to string
+				// errors here; golua does not, and a golua that started to do so
+				// would no longer deliver v itself.)
+				in.raise(back.err.Val)
 			}
 			return back.vals
 		}}}
